@@ -249,6 +249,8 @@ PANDAS_SQL = [
     "select x, case when x = 1 then null else '9999-12-31'::timestamp end as t from t where x < 3 order by x",
     "select x, x::varchar as s, (x * 1.5)::double as d from t where x < 0",
     "select parse_json('{\"a\": 1}') as v, 'aé😀' as u",
+    "select x, '2024-01-02 03:04:05.123456 +0000'::timestamp_tz as tz, case when x = 2 then null else '2020-05-06 07:08:09 +0000'::timestamp_tz end as tzn, "
+    "'2024-01-02 03:04:05'::timestamp as nt, x::double as d, (x = 1) as b from t where x < 4 order by x",
 ]
 
 
